@@ -1,7 +1,7 @@
 """C19 -- partition, weight and MEDIT files round-trip losslessly."""
 import os, re, sys
 sys.path.insert(0, os.path.dirname(os.path.dirname(os.path.abspath(__file__))))
-from translate_lib import read, fn_body, Fail, HEADER
+from translate_lib import read, fn_body, Fail, HEADER, coq_bool
 
 ETYPES = ["Vertex", "Edge", "Triangle", "Quadrangle", "Quadrilateral", "Tetrahedron", "Hexahedron"]
 
@@ -45,6 +45,19 @@ def gen_formats():
     if not m:
         raise Fail("partition::write: magic not found")
     out += "Definition part_magic_write : list N := %s.\n" % _bytes(m.group(1))
+
+    # partition files: every count / id is a full u64, widened or narrowed only between u64 and usize
+    pbad = []
+    prd, pwr = rd, wr
+    if re.findall(r"\bas\s+(\w+)", prd) != ["usize", "usize"] or len(re.findall(r"u64::from_le_bytes", prd)) != 2:
+        pbad.append("partition::read: expected exactly `u64::from_le_bytes(..) as usize` twice")
+    if re.findall(r"\bas\s+(\w+)", pwr) != ["u64", "u64"] or len(re.findall(r"u64::to_le_bytes", pwr)) != 2:
+        pbad.append("partition::write: expected exactly `u64::to_le_bytes(.. as u64)` twice")
+    if re.search(r"<<|>>\s*=?\s*[\w(]|\bwrapping_|\boverflowing_", prd + pwr):
+        pbad.append("partition: shift or wrapping arithmetic")
+    for b in pbad:
+        out += "(* width fingerprint: %s *)\n" % b
+    out += "Definition part_width_fingerprint : bool := %s.\n" % coq_bool(not pbad)
 
     src = read("tools/mesh-io/src/weight.rs")
     m = re.search(r"const\s+VERSION\s*:\s*u8\s*=\s*(\d+)\s*;", src)
@@ -93,6 +106,36 @@ def gen_formats():
     if rhs not in vals:
         raise Fail("weight::write_inner: unexpected bound %r" % rhs)
     out += "Definition weight_max_criteria : N := %d.\n" % (vals[rhs] if m.group(1) == "<=" else vals[rhs] - 1)
+
+    # Fingerprint of the row-size arithmetic (the model computes `criterion_count * 8` on unbounded
+    # integers): the criterion count must be widened to usize BEFORE any arithmetic, and no shift,
+    # narrowing cast or u16 arithmetic may appear in read / read_inner / write_inner.  A mismatch does
+    # not stop the run (the harness must still look for a failing input): it falsifies the obligation
+    # weight_rowsize_tie of Properties/C19.v.
+    ri = fn_body(src, "read_inner") or ""
+    bad = []
+    if not re.search(r"fn\s+read_inner\s*<[^(]*>\s*\(\s*mut\s+r\s*:\s*R\s*,\s*criterion_count\s*:\s*usize\s*,", src):
+        bad.append("read_inner does not take criterion_count: usize")
+    if not re.search(r"let\s+criterion_count\s*=\s*u16::from_le_bytes\(\s*\[\s*flags\[2\]\s*,\s*flags\[3\]\s*\]\s*\)\s*as\s+usize\s*;", rd):
+        bad.append("read: the u16 criterion count is not widened with `as usize` where it is decoded")
+    if len(re.findall(r"criterion_count", ri)) != 1 or not re.search(r"vec!\[\s*0x00\s*;\s*criterion_count\s*\*\s*8\s*\]", ri):
+        bad.append("read_inner: the row buffer is not `vec![0x00; criterion_count * 8]` (only use of criterion_count)")
+    if len(re.findall(r"\bweight_count\b", ri)) != 3 or not re.search(r"u64::from_le_bytes\(count_buf\)\s*as\s+usize", ri):
+        bad.append("read_inner: the row count is not `u64::from_le_bytes(count_buf) as usize` used for the capacity and the loop bound only")
+    for name, body in (("read", rd), ("read_inner", ri), ("write_inner", wr)):
+        if re.search(r"<<|>>\s*=?\s*[\w(]|\bwrapping_|\boverflowing_|\bchecked_|\bsaturating_", body):
+            bad.append("%s: shift or explicit wrapping/checked arithmetic" % name)
+    casts_r = re.findall(r"\bas\s+(u8|u16|u32|i8|i16|i32)\b", rd + ri)
+    if casts_r:
+        bad.append("read/read_inner: narrowing cast `as %s`" % casts_r[0])
+    casts_w = re.findall(r"(\w+)\s+as\s+(u8|u16|u32|i8|i16|i32)\b", wr)
+    if casts_w != [("criterion_count", "u16")] or not re.search(r"u16::to_le_bytes\(\s*criterion_count\s+as\s+u16\s*\)", wr):
+        bad.append("write_inner: narrowing casts other than `u16::to_le_bytes(criterion_count as u16)`: %s" % casts_w)
+    if not re.search(r"let\s+criterion_count\s*=\s*first\.len\(\)\s*;", wr) or not re.search(r"u64::to_le_bytes\(\s*len\s+as\s+u64\s*\)", wr):
+        bad.append("write_inner: criterion_count = first.len() / row count `len as u64` not found")
+    for b in bad:
+        out += "(* row-size fingerprint: %s *)\n" % b.replace("*)", "* )")
+    out += "Definition weight_rowsize_fingerprint : bool := %s.\n" % coq_bool(not bad)
     return out
 
 
@@ -191,7 +234,12 @@ PROP = dict(
          "empty blocks, 6 coordinate families, negative / extreme references, out-of-range node numbers), foreign and "
          "malformed MEDIT binary files (versions 1..4, both byte orders, 13 mutations), mutated ASCII files (15 mutations: "
          "case, CRLF/tabs, junk after keywords, skipped sections, missing/extra words, invalid UTF-8, Unicode spaces, ...), "
-         "and format-sniffing buffers (10 families). distinct = distinct input value (write+read cases) or distinct byte "
+         "and format-sniffing buffers (10 families); plus, one per shard of 100 cases, HEADER-FIELD BOUNDARY cases whose values are "
+         "given by a formula of (seed,row,column) evaluated identically by the harness and by Run/RunC19.v (only sizes, seed and "
+         "(length,digest) summaries are in the case file; the judgement -- row lengths = criterion count, same values -- is made in "
+         "Coq): weight files of both element types with 255,256,257,4095,4096,8191,8192,8193,8197,16384,32767,32768,65535 criteria "
+         "(all 13 in every quick run) x 0..3 rows, 65535..65537 rows, partition files of 255..257 / 65535..65537 / 70000 ids, MEDIT "
+         "binary and ASCII meshes with 65535..65537 nodes or elements. distinct = distinct input value (write+read cases) or distinct byte "
          "string (read-only cases); non-trivial = at least 2 ids / at least one weight row / a mesh with nodes and at least "
          "one block / a byte string longer than the fixed header",
     class_names={
@@ -209,6 +257,12 @@ PROP = dict(
         90: "parse_binary on foreign bytes: Ok", 91: "parse_binary: error", 92: "parse_binary: panic",
         94: "parse_ascii on mutated text: Ok", 95: "parse_ascii: error", 96: "parse_ascii: panic",
         98: "from_reader on foreign bytes: Ok", 99: "from_reader: error", 100: "from_reader: panic",
+        120: "weights at a header-field boundary, in contract: read back Ok", 121: "same: error", 122: "same: panic",
+        124: "weights at a boundary, outside contract (no rows / 65536 criteria): Ok", 125: "same (outside): error",
+        126: "same (outside): panic",
+        128: "partition with 2^8 / 2^16-ish ids: read back Ok", 129: "partition boundary: error", 130: "partition boundary: panic",
+        132: "MEDIT binary with 2^16-ish nodes/elements: read back Ok", 133: "MEDIT binary boundary: error", 134: "MEDIT binary boundary: panic",
+        136: "MEDIT ASCII with 2^16-ish nodes/elements: read back Ok", 137: "MEDIT ASCII boundary: error", 138: "MEDIT ASCII boundary: panic",
         110: "sniff: neither", 111: "sniff: ascii", 112: "sniff: test_format_ascii panics (slice off a char boundary)",
         114: "sniff: binary", 115: "sniff: binary and ascii", 116: "sniff: binary, ascii test panics",
     },
@@ -230,6 +284,8 @@ PROP = dict(
         "BufReader the token/line readers see the same bytes (UTF-8 validation per chunk can only differ on non-ASCII input)",
     ],
     assumptions=[
+        "boundary cases: a 64-bit shift/add running digest stands for the compared byte strings / value lists (a collision would hide a "
+        "difference; lengths and row lengths are compared exactly)",
         "usize = u64 (the code's own TODO: compile_error when sizeof(usize) < sizeof(u64))",
         "weight arrays are rectangular with 1 <= criteria <= 65535; arrays without rows are a separate lemma "
         "(Integers([]) round-trips, Floats([]) is read back as Integers([]): judged outside the property, see docs/C19.md)",
